@@ -28,7 +28,7 @@ From PW Require Import Base Pull PullProofs.
        prefix of l whatever the outcome (a failing node stops the chain). *)
 Theorem C11_runs_closure : forall fuel lv sc k up sc' up' log x,
   WF sc -> level_pull fuel lv sc k up = (sc', up', log, x) ->
-  (log = [] /\ (x = Err ECyclic \/ x = Err EExecutor)) \/
+  (log = [] /\ (x = Err ECyclic \/ x = Err EExecutor \/ x = Err ENotSiblings)) \/
   (exists order l,
       topo_enum (ups sc) k order /\ order = l ++ [k] /\
       (x = Ok -> log = map (pair lv) l) /\
@@ -81,6 +81,21 @@ Theorem C11_refused_executor : forall fuel lv sc k up D v,
   level_pull fuel lv sc k up = (sc, up, [], Err EExecutor).
 Proof. exact level_pull_refused_executor. Qed.
 Print Assumptions C11_refused_executor.
+
+(* a data connection that crosses composites (some node of the upstream closure has another owner
+   than the target): refused with the helper's ValueError AFTER the temporary relabelling and
+   re-wiring -- nothing ran, and by C11_restores labels, starting nodes and every connection set
+   are as before (the ORDER inside the connection lists of the closure may have changed) *)
+Theorem C11_refused_not_siblings : forall fuel lv sc k up D v sc' up' log x,
+  WF sc -> closure fuel (ups sc) k = Some D -> existsb (exe sc) D = false -> In v D -> own sc v <> own sc k ->
+  level_pull fuel lv sc k up = (sc', up', log, x) ->
+  x = Err ENotSiblings /\ log = [] /\ up' = up /\ same_graph sc sc'.
+Proof.
+  intros fuel lv sc k up D v sc' up' log x W C Hx Hv Ho H.
+  destruct (level_pull_refused_siblings _ _ _ _ _ _ _ _ _ _ _ C Hx Hv Ho H) as (A & B & C').
+  repeat split; auto; apply (level_pull_restores _ _ _ _ _ _ _ _ _ W H).
+Qed.
+Print Assumptions C11_refused_not_siblings.
 
 (* acyclic data is never mistaken for a cycle, given recursion depth above the longest path *)
 Theorem C11_acyclic_closure : forall up (rank : nat -> nat),
